@@ -3,6 +3,7 @@ package props
 import (
 	"bytes"
 	"fmt"
+	"math"
 	"math/rand"
 	"strconv"
 	"strings"
@@ -107,6 +108,10 @@ func matrixByName(name string) align.SubstitutionMatrix {
 			m = symMatrix(16777217, -16777217, -16777219, f(2)*16777217)
 		case "fine":
 			m = symMatrix(1+1.0/(1<<30), -(1 + 1.0/(1<<29)), -(0.5 + 1.0/(1<<31)), f(2)*(0.25+1.0/(1<<32)))
+		case "forbid-open": // gaps forbidden through an infinite / huge gap-open score
+			m = symMatrix(1, -1, -1, []float64{math.Inf(-1), -math.MaxFloat64, -1e308}[int(f(2))])
+		case "forbid-gap": // gaps forbidden through an infinite per-character gap score, gap-open 0
+			m = symMatrix(2, -1, math.Inf(-1), 0)
 		}
 	case "Levenshtein":
 		m = align.Levenshtein
@@ -187,6 +192,10 @@ func matrixFamily(r *core.Run, which string, forLocal bool) []string {
 		add("exact:" + k + ":0")
 		add("exact:" + k + ":-1")
 	}
+	add("exact:forbid-open:0")
+	add("exact:forbid-open:1")
+	add("exact:forbid-open:2")
+	add("exact:forbid-gap:0")
 	return out
 }
 
